@@ -45,6 +45,8 @@ type PropDef struct {
 	Checks int // rapid checks per batch
 	// Fixed is an optional deterministic sweep run once by worker 0 before the search.
 	Fixed func(t *testing.T, emit func(sc interface{}, out *Outcome))
+	// FixedAllWorkers: the sweep shards itself over VERIF_WORKER / VERIF_WORKERS.
+	FixedAllWorkers bool
 }
 
 // KnownFinding is one entry of /verif/known_findings.json.
@@ -366,6 +368,7 @@ func drive(t *testing.T, p *PropDef) {
 	}
 
 	evalN := 0
+	fixedSeen := map[string]bool{}
 	runOnce := func(sc interface{}) *Outcome {
 		o := p.Run(t, sc)
 		evalN++
@@ -380,13 +383,14 @@ func drive(t *testing.T, p *PropDef) {
 		return o
 	}
 
-	if p.Fixed != nil && worker == 0 {
+	if p.Fixed != nil && (worker == 0 || p.FixedAllWorkers) {
 		p.Fixed(t, func(sc interface{}, o *Outcome) {
 			account(sc, o, false)
 			if o.Violation != "" {
 				if k := matchKnown(known, o); k != nil {
 					noteKnown(k, sc, o, 0)
-				} else if len(res.Violations) < maxViol {
+				} else if len(res.Violations) < maxViol && !fixedSeen[o.Violation+"|"+o.Sig] {
+					fixedSeen[o.Violation+"|"+o.Sig] = true
 					res.Violations = append(res.Violations, ViolationRec{Class: o.Violation, Sig: o.Sig, Detail: o.Detail, Replay: saveReplay(sc, o, 0), LogHash: o.LogHash})
 				}
 			}
@@ -467,6 +471,9 @@ func drive(t *testing.T, p *PropDef) {
 			b = b[:6000]
 		}
 		fmt.Println(string(b))
+		for _, h := range res.Harness {
+			t.Errorf("harness trouble: %s", h)
+		}
 		for _, v := range res.Violations {
 			t.Errorf("violation %s: %s (replay %s)", v.Class, v.Detail, v.Replay)
 		}
